@@ -26,7 +26,19 @@ class StrictNode(NodeMixin):
         self.parent = parent
 
 
-CLS = {"anynode": AnyNode, "node": Node, "mixin": UserNode, "strict": StrictNode}
+class LenNode(UserNode):
+    """container-like user class: falsy exactly while it has no children (a freshly imported parent is falsy)"""
+
+    def __len__(self):
+        return len(self.children)
+
+
+class FalsyAny(AnyNode):
+    def __bool__(self):
+        return False
+
+
+CLS = {"anynode": AnyNode, "node": Node, "mixin": UserNode, "strict": StrictNode, "lenmixin": LenNode, "falsyany": FalsyAny}
 def bookkeeping(key):
     """the mixins' own (name-mangled) link attributes, whatever they are called in the tree under test"""
     return key.startswith("_NodeMixin__") or key.startswith("_LightNodeMixin__")
